@@ -30,7 +30,13 @@ def access_cases(ctx, n_files, max_adds, max_slices):
     rng = ctx.rng
     cases = []
     for i in range(n_files):
-        fc = ioc.gen_filecase(rng, rng.randrange(1, max_adds + 1), opts=_mk_opts(rng, i), p_bad=0.2)
+        if i % 3 == 2:
+            # appended file whose tables have different row counts (low trigger rate, data written
+            # only on trigger): every chunk size / index / slice must still agree on it
+            fc = ioc.gen_filecase(rng, rng.randrange(3, max_adds + 1), opts=ioc.gen_opts_uneven(rng), p_bad=0.15,
+                                  nsessions=rng.choice([2, 2, 3]), p_trig=0.3)
+        else:
+            fc = ioc.gen_filecase(rng, rng.randrange(1, max_adds + 1), opts=_mk_opts(rng, i), p_bad=0.2)
         cases.append({"files": [fc], "queries": [], "_max_slices": max_slices})
     return cases
 
@@ -54,12 +60,17 @@ def gen_cases_multi(ctx, n_cases, max_adds):
 
 
 def split_cases(ctx, n_seq, n_adds):
-    """All splits of one add sequence into <= 3 append sessions, as the files of one case."""
+    """All splits of one add sequence into <= 3 append sessions, as the files of one case.
+    Two of three sequences use option mixes / trigger rates that give the tables different row
+    counts at the moment of re-opening."""
     rng = ctx.rng
     cases = []
     for i in range(n_seq):
-        m = rng.randrange(2, n_adds + 1)
-        base = ioc.gen_filecase(rng, m, opts=_mk_opts(rng, i), p_bad=0.3, nsessions=1)
+        m = rng.randrange(3, n_adds + 1)
+        if i % 3 != 2:
+            base = ioc.gen_filecase(rng, m, opts=ioc.gen_opts_uneven(rng), p_bad=0.15, nsessions=1, p_trig=0.3)
+        else:
+            base = ioc.gen_filecase(rng, m, opts=_mk_opts(rng, i), p_bad=0.3, nsessions=1)
         adds = base["sessions"][0]
         files = [base]
         for c1 in range(0, m + 1):
@@ -77,7 +88,14 @@ def make_qgen(ctx):
     def qgen(case, recs):
         qs = []
         if case.get("split_group"):
-            return [["iter", i, rng.choice([None, 1, 2])] for i, r in enumerate(recs) if r["ctor"] is None]
+            for i, r in enumerate(recs):
+                if r["ctor"] is None:
+                    n = len(r["index"])
+                    ks = [None, 1, 2, 3, max(2, n - 1)]
+                    qs += [["iter", i, k] for k in (ks if ctx.thorough else rng.sample(ks, 2))]
+                    if ctx.thorough or i == 0 or rng.random() < 0.3:
+                        qs += [["int", i, None, j] for j in range(n)]
+            return qs
         if case.get("_gen"):
             if any(r["ctor"] is not None for r in recs):
                 return []
@@ -138,21 +156,21 @@ def run(ctx):
     changed, cur = ioc.pins_changed(common.REPO, common.ROOT)
     ctx.extra["ast_pins_changed"] = changed
     escalate = bool(changed) or not ok
-    big = ctx.thorough or escalate
+    big = ctx.thorough      # a changed pin / failed proof adds the search batch; the main batch keeps its tier size (time cap)
     stats = {}
     problems = []
     qgen = make_qgen(ctx)
     corp = corpus_cases()
     if corp:
         problems += ioc.run_batch(ctx, corp, PROP, stats, label="k")
-    cases = access_cases(ctx, ctx.n(14, 26) if big else 9, 9 if ctx.thorough else 7, None if ctx.thorough else 60)
-    cases += gen_cases_multi(ctx, ctx.n(14, 30) if big else 8, 8 if ctx.thorough else 6)
+    cases = access_cases(ctx, ctx.n(12, 26) if big else 9, 9 if ctx.thorough else 7, None if ctx.thorough else 45)
+    cases += gen_cases_multi(ctx, ctx.n(10, 30) if big else 7, 8 if ctx.thorough else 6)
     cases += split_cases(ctx, ctx.n(4, 7) if big else 3, 6 if ctx.thorough else 5)
     for c in cases:
         c.pop("_dummy", None)
     problems += ioc.run_batch(ctx, cases, PROP, stats, query_gen=qgen, label="g")
     if ctx.thorough or escalate or problems:
-        extra = access_cases(ctx, ctx.n(8, 40), 7, 60) + gen_cases_multi(ctx, ctx.n(8, 25), 6) + split_cases(ctx, ctx.n(2, 6), 5)
+        extra = access_cases(ctx, ctx.n(4, 40), 6, 40) + gen_cases_multi(ctx, ctx.n(4, 25), 5) + split_cases(ctx, ctx.n(2, 6), 4)
         problems += ioc.run_batch(ctx, extra, PROP, stats, query_gen=qgen, with_model=False, label="s")
         ctx.extra["search"] = {"ran": True, "evaluations": len(extra), "oracle": "sequential pass of the same file (every access path must reproduce it), single-session file (append splits), particles of the sequential pass (FileGenerator)"}
     else:
